@@ -173,7 +173,11 @@ StringDictionaryRPFC::StringDictionaryRPFC(IteratorDictString *it,
     for (bucket = 1; bucket <= buckets; bucket++) {
       // Checking the available space in textStrings and
       // realloc if required
-      while ((bytesStrings + (bucketsize * 1000)) > reservedStrings)
+      // (the header, coded in at most 4 bytes per byte, plus at most 4 bytes
+      // per Re-Pair symbol of the internal strings, plus padding)
+      size_t needed = 4 * (size_t)maxlength +
+                      4 * (beginnings[bucket] - beginnings[bucket - 1]) + 16;
+      while ((bytesStrings + needed) > reservedStrings)
         reservedStrings = Reallocate(&textStrings, reservedStrings);
 
       bytes = 0;
